@@ -77,7 +77,9 @@ func (v *ApiValidator) getRouteEntries(controller *metadata.ControllerMeta) []pa
 		entries = append(
 			entries,
 			paths.RouteEntry{
-				Path:   route.Annotations.GetFirstValueOrEmpty(annotations.GleeceAnnotationRoute),
+				// Routes conflict on their full path - the controller's route prefixes the receiver's
+				Path: controller.Struct.Annotations.GetFirstValueOrEmpty(annotations.GleeceAnnotationRoute) +
+					route.Annotations.GetFirstValueOrEmpty(annotations.GleeceAnnotationRoute),
 				Method: route.Annotations.GetFirstValueOrEmpty(annotations.GleeceAnnotationMethod),
 				Meta: paths.RouteEntryMeta{
 					Controller: controller,
